@@ -72,11 +72,13 @@ __CPROVER_ensures(__CPROVER_return_value == spec_zeropad(script))
 __CPROVER_assigns();
 
 /* ------------------------------------------------------------------ extracted code */
+/* the big-endian readers of Endian.h (only used when a tag helper is written in terms of them; pure syntax adaptation) */
+/*@include endian.tc@*/
 /*@extract {'file':'src/inc/Main.h', 'sig': r'inline T min\(const T a, const T b\)', 'emit':'static size_t min(const size_t a, const size_t b)'}@*/
 /*@extract {'file':'src/inc/Main.h', 'sig': r'inline T max\(const T a, const T b\)', 'emit':'static size_t max(const size_t a, const size_t b)'}@*/
 
 /*@extract {'file':'src/gr_face.cpp', 'sig': r'gr_uint32 gr_str_to_tag\(const char \*str\)', 'emit':'gr_uint32 gr_str_to_tag(const char *str)',
-            'casts': True, 'subs': [[r'\b(min|max)<size_t>', r'\1', 0]]}@*/
+            'casts': True, 'subs': [[r'\b(min|max)<size_t>', r'\1', 0], [r'be::peek<(\w+)>\(', r'be_peek_\1(', 0], [r'be::swap<(\w+)>\(', r'be_swap_\1(', 0]]}@*/
 
 /*@extract {'file':'src/gr_face.cpp', 'sig': r'void gr_tag_to_str\(gr_uint32 tag, char \*str\)', 'emit':'void gr_tag_to_str(gr_uint32 tag, char *str)', 'casts': True}@*/
 
